@@ -941,6 +941,21 @@ fn main() {
                 threads.insert(a[0].to_string(), h);
                 "ok".into()
             }
+            "sleep" => {
+                std::thread::sleep(std::time::Duration::from_millis(a[0].parse().expect("ms")));
+                "ok".into()
+            }
+            "poisoned" => {
+                // poisoned [wait-ms]: polls the poison flag for up to wait-ms
+                let ms: u64 = a.first().map(|x| x.parse().expect("ms")).unwrap_or(0);
+                let deadline = std::time::Instant::now() + std::time::Duration::from_millis(ms);
+                let d = w.db.as_ref().expect("db").inner().clone();
+                loop {
+                    if fjall::verif::is_poisoned(&d) { break "true".into(); }
+                    if std::time::Instant::now() >= deadline { break "false".into(); }
+                    std::thread::sleep(std::time::Duration::from_millis(10));
+                }
+            }
             "trace_on" => {
                 fjall::verif::trace_enable(true);
                 "ok".into()
